@@ -4,6 +4,7 @@ import (
 	"fmt"
 	"go/token"
 	"go/types"
+	"sort"
 
 	"golang.org/x/tools/go/ssa"
 
@@ -310,6 +311,85 @@ func runC05(c *Ctx) {
 			}
 		})
 		c.guarded(fp, equalIs("len(headers) vs numFilters+1", lenCmps, true), 2, "build headerIndex", ups, 1, gDominate)
+	})
+
+	c.rule("C05.V6", "the two header slices stay parallel: the response handler reads filterHeaders[i-1] and filterHeaders[i] for the position i that headerIndex gives the response's block hash, and headerIndex is built by position in blockHeaders; so in prepareCFiltersQuery the slice headerIndex is built from and the slice stored as the query's filterHeaders are the two results of FetchHeaderAncestors as they came - neither is re-sliced (leading entries dropped from one of them, to skip filters that are already cached, shift every later block onto the committed header of an earlier one: a genuine filter of block h-k passes as the filter of block h)", func() {
+		fn := c.fn("(*neutrino.ChainService).prepareCFiltersQuery")
+		bhA := c.method("headerfs", "BlockHeaderStore", "FetchHeaderAncestors")
+		fhA := c.method("headerfs", "FilterHeaderStore", "FetchHeaderAncestors")
+		var whole func(v ssa.Value, m *types.Func, d int) bool
+		whole = func(v ssa.Value, m *types.Func, d int) bool {
+			if d > 6 {
+				return false
+			}
+			switch x := v.(type) {
+			case *ssa.Extract:
+				call, ok := x.Tuple.(*ssa.Call)
+				return ok && x.Index == 0 && callTo(m)(call)
+			case *ssa.Phi:
+				for _, e := range x.Edges {
+					if !whole(e, m, d+1) {
+						return false
+					}
+				}
+				return len(x.Edges) > 0
+			case *ssa.UnOp:
+				// a local cell: every store into it
+				if a, ok := x.X.(*ssa.Alloc); ok && x.Op == token.MUL {
+					n := 0
+					okAll := true
+					for _, r := range ir.Refs(a) {
+						if st, isSt := r.(*ssa.Store); isSt && st.Addr == ssa.Value(a) {
+							n++
+							if !whole(st.Val, m, d+1) {
+								okAll = false
+							}
+						}
+					}
+					return n > 0 && okAll
+				}
+			}
+			return false
+		}
+		fhF := c.field("neutrino", "cfiltersQuery", "filterHeaders")
+		var bad []string
+		n := 0
+		for _, st := range find(fn, storeToField(fhF)) {
+			n++
+			if !whole(st.(*ssa.Store).Val, fhA, 0) {
+				bad = append(bad, "the filterHeaders stored in the query at "+c.at(st)+" are not the slice FetchHeaderAncestors returned")
+			}
+		}
+		// the slice the index is built from: element hashed into the map key
+		hiF := c.field("neutrino", "cfiltersQuery", "headerIndex")
+		_ = hiF
+		idx := 0
+		ir.Instrs(fn, func(in ssa.Instruction) {
+			mu, ok := in.(*ssa.MapUpdate)
+			if !ok {
+				return
+			}
+			if _, isInt := mu.Value.Type().Underlying().(*types.Basic); !isInt {
+				return
+			}
+			var src ssa.Value
+			ir.InfluencedBy(mu.Key, func(x ssa.Value) bool {
+				if ia, isIA := x.(*ssa.IndexAddr); isIA && src == nil {
+					src = ia.X
+					return true
+				}
+				return false
+			})
+			if src == nil {
+				return
+			}
+			idx++
+			if !whole(src, bhA, 0) {
+				bad = append(bad, "headerIndex is built at "+c.at(in)+" from a slice that is not the one FetchHeaderAncestors returned")
+			}
+		})
+		sort.Strings(bad)
+		c.verdict(len(bad) == 0 && n >= 1 && idx >= 1, c.nm(fn)+" | headerIndex and filterHeaders come from the fetched slices as they are", c.P.Pos(fn.Pos()), "both are the unsliced results of FetchHeaderAncestors", join(bad)+fmt.Sprintf(" (%d store(s) of filterHeaders, %d index update(s))", n, idx))
 	})
 
 	c.rule("C05.V2", "every non-nil filter returned by GetCFilter comes from the cache, the filter database or the validated targetFilter", func() {
